@@ -32,6 +32,7 @@ func runC11(r *engine.Run) {
 	r.Rule("AGREE-decode", "see C10: DeserializeNode accumulates a branch's weight from the child weights it reads and stores every accepted child entry into a child slot; shortNode.Serialize fills the persisted value reference from the value's Hash() and Weight()")
 	r.Rule("AGREE-sync", "the storage batch's Commit(sync) passes pebble.Sync exactly on the path where its sync parameter is true and pebble.NoSync where it is false (a commit the caller asked to be durable is fsynced)")
 	r.Rule("DOM-cleanfail", "in delete no store dirty = true can be followed by a recursive delete call (nodes are marked only after the delete below them returned): a failed delete (absent key) leaves its search path clean, so the next commit does not re-save unchanged nodes")
+	r.Rule("ORDER-wait", "Commit defers a closure that closes the created and deleted channels and then waits for the collector goroutines (sync.WaitGroup.Wait): the bookkeeping is complete when Commit returns")
 	r.NotDec = append(r.NotDec, "that a reopened trie is observationally identical (value-level)", "atomicity of the storage engine's batches (the atomic unit by the property's quantifier)")
 	domSave(r)
 	domCreated(r, "DOM-created")
@@ -43,6 +44,7 @@ func runC11(r *engine.Run) {
 	domUnchanged(r, "DOM-unchanged")
 	refShared(r, "REF-shared")
 	agreeSync(r, "AGREE-sync")
+	orderWait(r, "ORDER-wait")
 	domCleanFail(r, "DOM-cleanfail")
 	agreePersist(r, "AGREE-persist")
 	domMemo(r, "DOM-memo")
@@ -833,4 +835,45 @@ func domCleanFail(r *engine.Run, rule string) {
 	if n < 2 || len(recs) < 2 {
 		r.Anchor(rule, fmt.Errorf("unresolved anchor: %d dirty stores / %d recursive calls in delete", n, len(recs)))
 	}
+}
+
+// orderWait: Commit hands its bookkeeping back complete: on every way out of
+// Commit the two channels are closed and the collector goroutines are waited
+// for (a deferred closure that closes both channels and then calls Wait, or the
+// same calls before every return).
+func orderWait(r *engine.Run, rule string) {
+	f := wfn(r, rule, "Commit")
+	if f == nil {
+		return
+	}
+	good := false
+	for _, a := range f.AnonFuncs {
+		closes, waitAfter := 0, false
+		var lastClose ssa.Instruction
+		engine.Instrs(a, func(in ssa.Instruction) {
+			c, ok := in.(*ssa.Call)
+			if !ok {
+				return
+			}
+			if b, ok := c.Call.Value.(*ssa.Builtin); ok && b.Name() == "close" {
+				closes++
+				lastClose = c
+			}
+			if extCalleeIs(c, "sync", "WaitGroup", "Wait") && lastClose != nil && engine.ReachableAfter(lastClose, c) {
+				waitAfter = true
+			}
+		})
+		if closes >= 2 && waitAfter {
+			// is this closure deferred in Commit?
+			engine.Instrs(f, func(in ssa.Instruction) {
+				if d, ok := in.(*ssa.Defer); ok {
+					if mc, ok := d.Call.Value.(*ssa.MakeClosure); ok && mc.Fn == ssa.Value(a) {
+						good = true
+					}
+				}
+			})
+		}
+	}
+	r.Check(good, rule, fn(f)+"|waits for the collectors", r.P.Pos(f.Pos()), "a deferred closure closes both channels and then waits for the collector goroutines",
+		"Commit can return before its collector goroutines have drained the created/deleted channels: the created list and the collection set are incomplete when the caller commits the batch, rolls back or collects garbage")
 }
